@@ -63,6 +63,8 @@ def logger_kinds(test_api, state, uid, other_uid):
       ('other-record', logs.get_record_logger_for(other_uid), 'other'),
       ('other-child', logs.get_record_logger_for(other_uid).getChild('phase.x'), 'other'),
       ('uid-prefix', logs.get_record_logger_for(uid[:-1]), 'none'),
+      ('uid-extension', logs.get_record_logger_for(uid + '0'), 'none'),
+      ('uid-extension-child', logs.get_record_logger_for(uid + '0').getChild('phase.x'), 'none'),
       ('outside', logging.getLogger('notopenhtf.x'), 'none'),
   ]
 
@@ -79,7 +81,7 @@ def part_inputs(tier):
   for mac_label, text, redacted, foreign in [m + (f,) for f in (False, True) for m in MACS]:
     for shape_idx in range(len(shapes('x'))):
       _run_inputs_case(h, test_state, mac_label, text, redacted, foreign, shape_idx, viols, distinct, samples)
-      n += 10
+      n += 12
   return n, len(distinct), viols, samples
 
 
@@ -232,7 +234,15 @@ def part_levels(tier):
           viols.append(('levels:lost-or-extra:verbosity=%d' % verbosity,
                         'CLI verbosity %d, clock %s: recorded %r; missing %r' % (verbosity, clock, got, missing),
                         {'part': 'levels', 'case': case}))
-        elif got != want:
+        elif clock == 'steps-back' and got == want:
+          # each record keeps the millisecond timestamp of the moment it was logged -- also when the wall clock went back
+          own = [r.timestamp_millis for r in rec.log_records if r.message.startswith('own-')]
+          offs = [0.0, -2.0, 2.0, -4.0, 1.0]
+          drift = [abs((own[i] - own[0]) - 1000 * (offs[i] - offs[0])) for i in range(len(own))]
+          if len(own) == len(offs) and max(drift) > 500:
+            viols.append(('levels:timestamp', 'CLI verbosity %d: messages logged at wall-clock offsets %r s are recorded with timestamps %r '
+                          '(relative ms: %r)' % (verbosity, offs, own, [t - own[0] for t in own]), {'part': 'levels', 'case': case}))
+        if sorted(got) == sorted(want) and got != want:
           viols.append(('levels:order:%s' % clock, 'CLI verbosity %d, clock %s: records are not in emission order: %r'
                         % (verbosity, clock, [m for _, m in got]), {'part': 'levels', 'case': case}))
       finally:
@@ -542,6 +552,7 @@ def run(tier):
   GATE_FLT[0] = _closing_filter if tier == 'quick' else None
   plans = [(2, 1, False, False), (1, 1, False, True)] if tier == 'quick' else \
       [(2, 2, False, False), (1, 1, True, False), (2, 1, True, False), (2, 1, False, True)]
+  explore.set_plan(common.thorough_budget(tier), len(plans))
   for size, bound, free, stag in plans:
     SIZE[0] = size
     STAGGER[0] = stag
